@@ -542,3 +542,33 @@ func (e *Env) watchdog() {
 		os.Exit(3)
 	}
 }
+
+// FuzzJudge is used by native fuzz targets: it returns silently for passing
+// cases and listed known findings, and otherwise saves the case as a replay
+// file, prints the line the driver looks for and fails the fuzz run.
+func FuzzJudge(t *testing.T, id, sub string, c any, err error) {
+	if err == nil {
+		return
+	}
+	root := os.Getenv("VERIF_ROOT")
+	if root == "" {
+		root = "/verif"
+	}
+	var k *KnownErr
+	if errors.As(err, &k) {
+		for _, kl := range LoadKnown(filepath.Join(root, "known_findings.txt")) {
+			if kl.Property == id && kl.Classifier == k.Classifier {
+				return
+			}
+		}
+	}
+	raw, _ := json.Marshal(c)
+	file := map[string]any{"property": id, "sub": sub, "case": json.RawMessage(raw), "msg": err.Error()}
+	data, _ := json.MarshalIndent(file, "", " ")
+	dir := filepath.Join(root, "replays")
+	os.MkdirAll(dir, 0o755)
+	path := filepath.Join(dir, fmt.Sprintf("%s-%s-fuzz-%016x.json", id, sub, cov.FP(raw)))
+	os.WriteFile(path, data, 0o644)
+	fmt.Printf("VERIF-FUZZ-REPLAY %s\n", path)
+	t.Fatalf("%v", err)
+}
